@@ -39,6 +39,7 @@ def register(db):
     collab.declare(db)
     register_end_tag(db)
     register_start_namespaces(db)
+    register_set_data(db)
     P = ["C03"]
     # abstract SAX callbacks: their calls are recorded on the ghost trace
     for m in ("start_document", "end_document", "start_element", "end_element", "set_characters",
@@ -90,9 +91,10 @@ def register(db):
     ))
     # ------------------------------------------------------------------ start_tag / end_tag
     db.add(Contract(f"{EH}.flush_start", variant="call-view", trusted=True, call_default=True, params={}, raises={},
-                    modifies=["self.ns_map"],
+                    modifies=["self.ns_map", "self.in_tail", "self.pending_tag"],
                     call_ensures=["self.pending_tag is None", FRAME,
-                                  "implies(old(self.pending_tag) is None, same_dict(self.ns_map, old(self.ns_map)))"],
+                                  "implies(old(self.pending_tag) is None, same_dict(self.ns_map, old(self.ns_map)) and self.in_tail == old(self.in_tail))",
+                                  "implies(old(self.pending_tag) is not None, self.in_tail == False)"],
                     note="call-site view of flush_start: the pending tag is emitted, existing bindings are kept"))
     db.add(Contract(f"{EH}.start_namespaces", variant="call-view", trusted=True, call_default=True, params={}, raises={},
                     note="assumed here: forwards the scope's new bindings to the back end (loop over the map)"))
@@ -184,6 +186,32 @@ def register_start_namespaces(db):
             loops=[Loop(invariants=[], header="self.ns_map.items()", modifies=["prefixes"],
                         step=[("a-binding-the-parent-lacks-is-declared", f"implies(not {inherited}, {DECL})"),
                               ("an-inherited-binding-is-not-declared-again", f"implies({inherited}, called('EventHandler.start_prefix_mapping') == 0)")])],
+            properties=P,
+        ))
+
+
+def register_set_data(db):
+    """set_data: the content is encoded BEFORE the pending start tag is written - encoding a QName value allocates a
+    prefix for its namespace in the element's scope, and only bindings present when the start tag is flushed get
+    declared (C03: every prefix used is declared in scope); xsi:nil is kept exactly when there is no content."""
+    P = ["C03"]
+    db.add(Contract(f"{EH}.encode_data", variant="call-view", trusted=True, call_default=True, params={}, returns="str|None",
+                    raises={"ConverterError": True}, modifies=["self.ns_map"],
+                    call_ensures=["result == uf('encode_data', 'str|None', data)", FRAME],
+                    note="call-site view: the text is a function of the data; encoding may ADD prefix bindings to the scope"))
+    ENC = "uf('encode_data', 'str|None', data)"
+    for pend in ("qualified", "unqualified"):
+        db.add(Contract(
+            f"{EH}.set_data", variant=f"pending-{pend}",
+            params={"self": handler(1, pend), "data": "opaque:Any"},
+            ensures=[
+                ("content-is-encoded-before-the-start-tag-is-written", "called_before('EventHandler.encode_data', 'EventHandler.flush_start')"),
+                ("xsi-nil-kept-exactly-when-there-is-no-content", f"call_arg('EventHandler.flush_start', 1) == ({ENC} is None)"),
+                ("text-goes-out-as-element-content", f"implies({ENC} is not None and {ENC} != '', called('EventHandler.set_characters') == 1 and "
+                                                     f"call_arg('EventHandler.set_characters', 1) == {ENC})"),
+                ("further-data-is-tail-content", "self.in_tail == True"),
+            ],
+            raises={"ConverterError": True}, modifies=["self.ns_map", "self.in_tail", "self.tail", "self.pending_tag", "self.attrs"],
             properties=P,
         ))
 
